@@ -1,14 +1,18 @@
-"""C51 - rebase plans survive being saved and loaded unchanged (persistence sentence)."""
+"""C51 - rebase plans: plan generation over symbolic history shapes, and persistence."""
 from symx.containers import SymDict
 from symx.runner import Ob
 
 ID = "C51"
 RB = "breezy.plugins.rewrite.rebase"
-FUNCTIONS = [RB + ":marshall_rebase_plan", RB + ":unmarshall_rebase_plan"]
-STUBS = ["dict literals of the lifted module are association-list dictionaries (keys compared with ==)"]
+FUNCTIONS = [RB + ":marshall_rebase_plan", RB + ":unmarshall_rebase_plan", RB + ":generate_simple_plan"]
+STUBS = ["dict literals of the lifted module are association-list dictionaries (keys compared with ==)",
+         "simple_plan: the graph object (get_parent_map / heads / find_lca) answers from the symbolic parent table by "
+         "computing ancestry in the harness; vcsgraph's topo_sort (compiled) is replaced by the id order of the table "
+         "(parents have smaller ids, so that order is topological); FrozenHeadsCache is the identity"]
 ASSUMPTIONS = ["revision ids are non-empty and contain no space and no newline (the revision-id alphabet)",
                "revno is a non-negative integer below 10^6"]
-OUTSIDE = ["plan generation (topological ordering over a real graph)", "plans / ids larger than the bounds",
+OUTSIDE = ["generate_transpose_plan, rebase_todo, start / stop revisions inside the set, skip_full_merged; vcsgraph's own "
+           "topological sort and heads computation", "plans / ids larger than the bounds",
            "writing the plan file to the branch transport"]
 
 
@@ -70,6 +74,105 @@ def ob_header(cx):
     cx.cover("rejected")
 
 
+BASE, ONTO, OTHER = b"B", b"O", b"X"
+
+
+def ob_simple_plan(cx):
+    """generate_simple_plan over a history whose SHAPE is symbolic: the revisions to rebase and their parents are symbolic
+    one-byte ids, the solver decides which parent is which revision (parents have smaller ids: acyclic).  B is the common
+    ancestor (an ancestor of the new base O), X an old revision outside the rebased set (merged from elsewhere).
+    The plan rewrites exactly the revisions of the set; every new parent is the new base, the NEW id of a revision of the
+    set, or a revision outside the set - never the old id of a revision that is itself being rewritten."""
+    R = cx.mod(RB)
+    T = cx.truth
+    n = cx.choose("nrevs", 1, cx.p("nrevs"))
+    revs, parents = [], []
+    for i in range(n):
+        r = cx.bytes("rev%d" % i, 1, b"pqrs")
+        for o in revs:
+            cx.assume(o[0] < r[0])               # listed in id order; ids distinct
+        ps = []
+        for j in range(cx.choose("nparents%d" % i, 1, 2)):
+            p = cx.bytes("parent%d_%d" % (i, j), 1, b"BXpqrs")
+            cx.assume(p[0] < r[0])               # acyclic
+            for o in ps:
+                cx.assume(o != p)
+            ps.append(p)
+        revs.append(r)
+        parents.append(ps)
+    # every parent that is not B / X is one of the revisions (no dangling ids)
+    for ps in parents:
+        for p in ps:
+            cx.assume(T(p == BASE) or T(p == OTHER) or any(T(p == r) for r in revs))
+
+    def parents_of(x):
+        for r, ps in zip(revs, parents):
+            if T(r == x):
+                return ps
+        return []
+
+    def anc(x, y):
+        """x is an ancestor of (or equal to) y"""
+        if T(x == y):
+            return True
+        if T(y == ONTO):
+            return T(x == BASE)
+        return any(anc(x, p) for p in parents_of(y))
+
+    class Graph:
+        @staticmethod
+        def get_parent_map(keys):
+            from symx.containers import SymDict
+            pairs = [(r, tuple(ps)) for r, ps in zip(revs, parents)]
+            return SymDict(pairs) if cx.sym else dict(pairs)
+
+        @staticmethod
+        def heads(keys):
+            keys = list(keys)
+            out = []
+            for k in keys:
+                if not any(anc(k, o) and not T(k == o) for o in keys) and not any(T(k == o) for o in out):
+                    out.append(k)
+            if cx.sym:
+                from symx.containers import SymSet
+                return SymSet(out)
+            return set(out)
+
+        @staticmethod
+        def find_lca(a, b):
+            return {BASE}
+    R.topo_sort = lambda pm: list(revs)         # ids are listed parents-first: a valid topological order
+    R.FrozenHeadsCache = lambda g: g
+    if cx.sym:
+        from symx.containers import SymSet
+        todo = SymSet(revs)
+    else:
+        todo = set(revs)
+    plan = R.generate_simple_plan(todo, None, None, ONTO, Graph, lambda old, ps: b"new-" + old)
+    items = list(plan.items())
+    cx.require(len(items) == n, "plan rewrites %d revisions, the set has %d" % (len(items), n))
+    for r in revs:
+        cx.require(any(T(k == r) for k, _v in items), "a revision of the set is missing from the plan")
+    for old, (new, nps) in items:
+        cx.require(new == b"new-" + old, "new id not generated from the old id")
+        cx.require(len(nps) >= 1, "rewritten revision without parents")
+        first = nps[0]
+        cx.require(T(first == ONTO) or any(T(first == b"new-" + r) for r in revs),
+                   "left-hand parent of a rewritten revision is neither the new base nor a rewritten revision")
+        for p in nps:
+            cx.require(not any(T(p == r) for r in revs),
+                       "a rewritten revision keeps the OLD id of a revision that is itself rewritten as its parent")
+            ok = T(p == ONTO) or T(p == OTHER) or T(p == BASE) or any(T(p == b"new-" + r) for r in revs)
+            cx.require(ok, "unknown parent in the plan")
+        if len(nps) > 1:
+            cx.cover("merge")
+    if any(any(T(p == OTHER) for p in ps) for ps in parents):
+        cx.cover("outside_merge")
+    if n >= 2:
+        cx.cover("chain")
+    cx.observe("plan", [(k, nps) for k, (_new, nps) in items])
+
+
 def obligations(tier):
     q = tier == "quick"
     p = dict(lrev=2, entries=2 if q else 3, parents=2, ltext=4 if q else 6)
@@ -80,4 +183,9 @@ def obligations(tier):
                   "revno < 10^6" % p),
         Ob("header_mismatch", ob_header, [(RB, dict(symdict=True))], p, to, 1, ["rejected"],
            bounds="texts <= %(ltext)d bytes (too short to carry the header)" % p),
+        Ob("simple_plan", ob_simple_plan, [(RB, dict(symdict=True))], dict(nrevs=3 if q else 4), to, 2 if q else 1,
+           ["merge", "outside_merge", "chain"],
+           bounds="<= %d revisions to rebase with 1..2 parents each; revisions and parents are symbolic ids (the solver "
+                  "decides the shape: chains, diamonds inside the set, merges of a revision from outside), fixed common "
+                  "ancestor and new base" % (3 if q else 4)),
     ]
